@@ -438,18 +438,20 @@ def c06_sem(R):
                 import io, contextlib
                 from nsl import Compiler
                 import wasmtime
-                src = 'export function f(%s a) -> %s { return (a + %d); }' % ({{t}}, {{t}}, {{c}})
+                src = ('export function f(%s a) -> %s { return (a + %d); }' if {{t}} == 'int' else 'export function f(%s a) -> %s { return (a + uint(%d)); }') % ({{t}}, {{t}}, {{c}})
                 try:
                     with contextlib.redirect_stdout(io.StringIO()):
                         r = Compiler.Compiler().Compile(src, {'wasm': True, 'optimize': True})
                     out = io.BytesIO(); r.WasmModule.WriteTo(out)
                 except BaseException as e:
-                    print(src, 'refused:', type(e).__name__, e); raise SystemExit
+                    print(src, 'refused:', type(e).__name__, e)
+                    if {{mustaccept}}: print('(this constant has a 32-bit representation: it is inside the backend subset)'); print('REPLAY-CONFIRMED')
+                    raise SystemExit
                 try:
                     wasmtime.Module.validate(wasmtime.Engine(), out.getvalue()); print(src, 'valid')
                 except Exception as e:
                     print(src); print('wasmtime rejects the emitted module:', str(e)[:200]); print('REPLAY-CONFIRMED')
-                """, t="int" if k == "i" else "uint", c=c)
+                """, t="int" if k == "i" else "uint", c=c, mustaccept=(clause == "refused-only-if-unrepresentable"))
 
         verify(R, "C07.const-range", GW + "::_GenerateConstant", run_const, replay_const, label="int" if k == "i" else "uint")
     # constants
